@@ -362,6 +362,18 @@ func faultOffset(g *G, data string) int {
 	if len(data) == 0 || g.chance("off-zero", 1, 8) {
 		return 0
 	}
+	if g.chance("off-special", 1, 3) {
+		// right after one of the bytes at which scanners change state (quote, escape, expansion, comment)
+		var cuts []int
+		for i := 0; i < len(data); i++ {
+			if strings.IndexByte("\\\"'${}#=:&*!|>-", data[i]) >= 0 {
+				cuts = append(cuts, i+1)
+			}
+		}
+		if len(cuts) > 0 {
+			return cuts[g.n("off-special-which", len(cuts))]
+		}
+	}
 	off := g.n("off", len(data))
 	switch g.n("off-bias", 4) {
 	case 3: // right after a backslash (an escape cut in two)
